@@ -8,9 +8,9 @@
 set -u
 name="$1"
 dir=/verif/seeded/$name
-WT=/tmp/wt-seeded
+WT=${SEEDED_WT:-/tmp/wt-seeded}
 export GOFLAGS=-mod=mod GOPROXY=off GOSUMDB=off
-exec 9>/tmp/wt-seeded.lock; flock 9
+exec 9>"$WT.lock"; flock 9
 head=$(git -C /repo rev-parse HEAD)
 if [ ! -e "$WT/.git" ]; then git -C /repo worktree add --detach "$WT" "$head" >/dev/null 2>&1 || { echo "cannot create worktree"; exit 2; }; fi
 git -C "$WT" checkout -q -- . && git -C "$WT" clean -fdq && git -C "$WT" checkout -q --detach "$head" || exit 2
@@ -20,19 +20,19 @@ demo_src=$(ls "$dir"/demo_test.go 2>/dev/null || ls "$dir"/*_test.go | head -1)
 mkdir -p "$(dirname "$WT/$demo_path")"
 cp "$demo_src" "$WT/$demo_path"
 out="$dir/verified.txt"; : > "$out"
-run_demo() { (cd "$WT" && timeout 1500 bash -c "$demo_cmd") > /tmp/wt-seeded-demo.log 2>&1; }
+run_demo() { (cd "$WT" && timeout 1500 bash -c "$demo_cmd") > $WT.demo.log 2>&1; }
 echo "repo HEAD $head" >> "$out"
 run_demo; c1=$?
 echo "1. demo on clean HEAD: exit $c1 (expect 0)" | tee -a "$out"
 git -C "$WT" apply "$dir/patch.diff" || { echo "patch does not apply" | tee -a "$out"; exit 2; }
 run_demo; c2=$?
 echo "2. demo with patch: exit $c2 (expect non-zero)" | tee -a "$out"
-tail -5 /tmp/wt-seeded-demo.log | cut -c1-200 >> "$out"
+tail -5 $WT.demo.log | cut -c1-200 >> "$out"
 rm -f "$WT/$demo_path"
 pkgs=$(git -C "$WT" diff --name-only | xargs -n1 dirname | sort -u | sed 's|^|./|' | tr '\n' ' ')
-(cd "$WT" && timeout 3000 go test -vet=off -count=1 $pkgs) > /tmp/wt-seeded-tests.log 2>&1; c3=$?
+(cd "$WT" && timeout 3000 go test -vet=off -count=1 $pkgs) > $WT.tests.log 2>&1; c3=$?
 echo "3. existing tests of $pkgs with patch: exit $c3 (expect 0)" | tee -a "$out"
-tail -4 /tmp/wt-seeded-tests.log | cut -c1-200 >> "$out"
+tail -4 $WT.tests.log | cut -c1-200 >> "$out"
 git -C "$WT" checkout -q -- . ; git -C "$WT" clean -fdq
 if [ $c1 -eq 0 ] && [ $c2 -ne 0 ] && [ $c3 -eq 0 ]; then echo "VERIFIED $name" | tee -a "$out"; exit 0; fi
 echo "NOT VERIFIED $name" | tee -a "$out"; exit 1
